@@ -1495,3 +1495,88 @@ class ExecuteScript(FnContract):
 
 EXECUTE_SCRIPT = ExecuteScript()
 EXECUTE_SCRIPT.callee_contracts = {EXECUTE_SCRIPT_HELPER.qual: EXECUTE_SCRIPT_HELPER}
+
+
+# ---------------------------------------------------------------------------------------------
+# fixed native witness programs: consulted only when an obligation of the named clause is left undecided by the
+# solvers (quantified path conditions); the witness decides by running the real code
+# ---------------------------------------------------------------------------------------------
+_W_PRELUDE = """
+from bare_script import parse_script, execute_script, evaluate_expression, parse_expression
+bad = []
+def run(text, globals_=None, expect=None, what=''):
+    g = dict(globals_ or {})
+    try:
+        got = execute_script(parse_script(text), {'globals': g, 'maxStatements': 10000})
+    except Exception as exc:
+        got = 'EXC ' + type(exc).__name__
+    if got != expect:
+        bad.append({'program': text, 'expected': expect, 'observed': repr(got), 'what': what})
+    return g
+"""
+
+ASSIGNMENT_WITNESS = _W_PRELUDE + """
+run('function fn():\\n    xx = 1\\n    return xx\\nendfunction\\nxx = 0\\nfn()\\nreturn xx\\n', expect=0.0,
+    what='an assignment inside a function (even one without parameters) writes that call\\'s locals, not the globals')
+run('function fn(aa):\\n    aa = 2\\nendfunction\\naa = 0\\nfn(1)\\nreturn aa\\n', expect=0.0, what='parameter re-assignment stays local')
+run('xx = 3\\nreturn xx\\n', expect=3.0, what='top-level assignment writes the globals')
+result = {'violates': bool(bad), 'counterexamples': bad[:2]}
+"""
+
+JUMP_WITNESS = _W_PRELUDE + """
+model = {'statements': [
+    {'expr': {'name': 'out', 'expr': {'string': ''}}},
+    {'jump': {'label': 'lab'}},
+    {'expr': {'name': 'out', 'expr': {'string': 'skipped'}}},
+    {'label': 'lab'},
+    {'expr': {'name': 'out', 'expr': {'binary': {'op': '+', 'left': {'variable': 'out'}, 'right': {'string': 'A'}}}}},
+    {'jump': {'label': 'end', 'expr': {'variable': 'done'}}},
+    {'expr': {'name': 'done', 'expr': {'variable': 'true'}}},
+    {'label': 'lab'},
+    {'expr': {'name': 'out', 'expr': {'binary': {'op': '+', 'left': {'variable': 'out'}, 'right': {'string': 'B'}}}}},
+    {'jump': {'label': 'lab'}},
+    {'label': 'end'},
+    {'return': {'expr': {'variable': 'out'}}}]}
+got = execute_script(model, {'globals': {}, 'maxStatements': 1000})
+if got != 'ABA':
+    bad.append({'program': 'jump to a duplicated label', 'expected': 'ABA (first label of that name)', 'observed': repr(got)})
+run('jumpif (objectNew()) skip\\nreturn 1\\nskip:\\nreturn 2\\n', expect=2.0, what='an empty object is truthy in a jump condition')
+run('jumpif (arrayNew()) skip\\nreturn 1\\nskip:\\nreturn 2\\n', expect=1.0, what='an empty array is falsy in a jump condition')
+result = {'violates': bool(bad), 'counterexamples': bad[:2]}
+"""
+
+BINDING_WITNESS = _W_PRELUDE + """
+run('function fn(aa, bb):\\n    return bb\\nendfunction\\nbb = 5\\nreturn fn(1)\\n', expect=None, what='a missing argument is null, not the global of the same name')
+run('function fn(aa, bb...):\\n    return bb\\nendfunction\\nreturn fn(1)\\n', expect=[], what='a missing rest parameter is an empty array')
+run('function fn(aa, bb...):\\n    return arrayLength(bb)\\nendfunction\\nreturn fn(1, 2, 3)\\n', expect=2, what='rest parameter collects the remaining arguments')
+run('function fn(aa):\\n    return aa\\nendfunction\\nreturn fn(1, 2)\\n', expect=1.0, what='surplus arguments are ignored')
+result = {'violates': bool(bad), 'counterexamples': bad[:2]}
+"""
+
+OPERATOR_WITNESS = _W_PRELUDE + """
+import datetime
+dt = datetime.datetime(2020, 1, 1)
+table = [
+    ('1 == true', {}, False), ('1 != true', {}, True), ('0 == false', {}, False), ('null == null', {}, True),
+    ('aa == bb', {'aa': [1, 2], 'bb': [True, 2]}, False), ('1 <= 1', {}, True), ('1 < 1', {}, False), ('"a" < "b"', {}, True),
+    ('null < 0', {}, True), ('aa < bb', {'aa': [1], 'bb': [1, 0]}, True), ('7 / 2', {}, 3.5), ('aa / bb', {'aa': 7, 'bb': 2}, 3.5),
+    ('aa % bb', {'aa': -7, 'bb': 2}, 1), ('2 ** 3', {}, 8.0), ('"a" + 1', {}, 'a1'), ('1 + "a"', {}, '1a'), ('true + 1', {}, None),
+    ('-true', {}, None), ('!0', {}, True), ('aa && bb', {'aa': {}, 'bb': 2}, 2), ('aa || bb', {'aa': {}, 'bb': 2}, {}),
+    ('aa && bb', {'aa': [], 'bb': 2}, []), ('(aa + 1.6) - aa', {'aa': dt}, 2.0), ('(aa + 2) - aa', {'aa': dt}, 2.0),
+    ('1 / 0', {}, None), ('aa - bb', {'aa': dt + datetime.timedelta(milliseconds=1, microseconds=600), 'bb': dt}, 2.0),
+]
+for text, g, expect in table:
+    try:
+        got = evaluate_expression(parse_expression(text), {'globals': dict(g)})
+    except Exception as exc:
+        got = 'EXC ' + type(exc).__name__
+    if got != expect or type(got) is bool and type(expect) is not bool or type(expect) is bool and type(got) is not bool:
+        bad.append({'expression': text, 'globals': repr(g), 'expected': repr(expect), 'observed': repr(got)})
+result = {'violates': bool(bad), 'counterexamples': bad[:3]}
+"""
+
+ExecuteScriptHelper.native_witness = {'assignment-writes-locals-inside-functions-else-globals': ASSIGNMENT_WITNESS,
+                                      'jump-continues-after-the-first-matching-label': JUMP_WITNESS}
+ScriptFunction.native_witness = {'C04.bound-so-far': BINDING_WITNESS, 'C04.parameters-bound-positionally': BINDING_WITNESS}
+EvaluateExpression.native_witness = {'operator-semantics': OPERATOR_WITNESS, 'C03.short-circuit': OPERATOR_WITNESS,
+                                     'C03.unary': OPERATOR_WITNESS}
